@@ -391,7 +391,8 @@ def run_property(name, tier, seed, replay=None):
     # de-duplicate violations by message
     seen = set()
     n = 0
-    for v in rep.violations:
+    # violations that come with a failing input first (the report is capped)
+    for v in sorted(rep.violations, key=lambda x: not x["found"]):
         key = v["what"][:120]
         if key in seen and n >= 5:
             continue
